@@ -320,7 +320,7 @@ fn value_of(ty: &Arc<RTy>, v: &RVal) -> Value {
 /// do not degenerate when a random stream runs out: the jet and a seed for the style choices.
 struct Pre {
     jet: usize,
-    style: [u8; 64],
+    style: [u8; 320],
 }
 
 fn xorshift_bytes(seed: u64, out: &mut [u8]) {
@@ -363,19 +363,42 @@ fn mode_template(cx: &mut Case, pre: &Pre, espec: &EnvSpec, env: &ElementsTxEnv)
     // step 1: comp arg J : 1 -> T on the Rust machine
     let mut b = B { nodes: vec![], eq_memo: vec![] };
     let mut witnesses: HashMap<Id, Value> = HashMap::new();
+    // Where the jet finds its argument: alone in a fresh frame (plain), or inside a larger frame
+    // behind / in front of other non-zero data (`drop J` / `take J` on a pair with a neighbour).
+    // The C evaluator hands a jet its live read frame at whatever cursor it has; the Rust
+    // machine copies the argument out first: the two must still agree.
+    let placement = if s.is_unit() { 0 } else { [0usize, 0, 1, 2][st.below(4)] };
     let call = {
         let jn = b.push(Ir::Jet(j));
         if s.is_unit() {
             jn
-        } else if arg_as_witness {
-            let w = b.push(Ir::Witness);
-            witnesses.insert(w, value_of(&s, &arg));
-            b.push(Ir::Comp(w, jn))
         } else {
-            let c = b.constant(&mut src, &s, &arg);
-            b.push(Ir::Comp(c, jn))
+            let an = if arg_as_witness {
+                let w = b.push(Ir::Witness);
+                witnesses.insert(w, value_of(&s, &arg));
+                w
+            } else {
+                b.constant(&mut src, &s, &arg)
+            };
+            if placement == 0 {
+                b.push(Ir::Comp(an, jn))
+            } else {
+                let nt = crate::gen::types::gen_ty(&mut st, 70, 4);
+                let nv = gen_val(&mut st, &nt);
+                let nn = b.constant(&mut st, &nt, &nv);
+                if placement == 1 {
+                    let p = b.push(Ir::Pair(nn, an));
+                    let d = b.push(Ir::Drop(jn));
+                    b.push(Ir::Comp(p, d))
+                } else {
+                    let p = b.push(Ir::Pair(an, nn));
+                    let t = b.push(Ir::Take(jn));
+                    b.push(Ir::Comp(p, t))
+                }
+            }
         }
     };
+    cx.label(["argument alone in its frame", "argument behind a neighbour (drop J)", "argument in front of a neighbour (take J)"][placement]);
     let probe = Prog { nodes: b.nodes.clone(), root: call, family: Family::Elements };
     let describe_arg = || format!("jet {} on argument {}", name, arg.show_short(&s));
     let probe_redeem = build_redeem(&probe, false, &witnesses).map_err(|e| harness_error(format!("probe program of {}: {:?}", describe_arg(), e)))?;
@@ -622,13 +645,13 @@ fn mode_delegation(cx: &mut Case, pre: &Pre, espec: &EnvSpec, env: &ElementsTxEn
 pub fn case(cx: &mut Case) -> CaseResult {
     let template = cx.src.weighted(&[3, 7]) == 1;
     let n_jets = JETS.with(|j| j.len());
-    let mut pre = Pre { jet: (cx.src.u16() as usize * n_jets) >> 16, style: [0; 64] };
+    let mut pre = Pre { jet: (cx.src.u16() as usize * n_jets) >> 16, style: [0; 320] };
     xorshift_bytes(cx.src.u64(), &mut pre.style);
     let espec = gen_env(&mut cx.src);
     let env = espec.build();
     cx.label_if(espec.tx.input.len() >= 2, "env: >= 2 inputs");
     cx.label_if(!espec.tx.output.is_empty(), "env: has outputs");
-    if template && pre.style[63] < 26 {
+    if template && pre.style[319] < 26 {
         mode_delegation(cx, &pre, &espec, &env)
     } else if template {
         mode_template(cx, &pre, &espec, &env)
